@@ -124,6 +124,10 @@ theorem checkNode_safe [Allows P] (t : Xml) (n : String) (r o : List String) (a 
   unfold checkNode; safe
 macro_rules | `(tactic| safe_leaf) => `(tactic| exact checkNode_safe _ _ _ _ _ _)
 
+theorem checkG_safe [Allows P] (fn : String) (t : Xml) : Safe P (checkG fn t) := by
+  unfold checkG; safe
+macro_rules | `(tactic| safe_leaf) => `(tactic| exact checkG_safe _ _)
+
 theorem unpackBoolean_safe [Allows P] (d : Str) : Safe P (unpackBoolean d) := by
   unfold unpackBoolean; safe
 macro_rules | `(tactic| safe_leaf) => `(tactic| exact unpackBoolean_safe _)
